@@ -3,10 +3,12 @@ package main
 import (
 	"fmt"
 	"os"
+	"strings"
 
 	txfile "github.com/elastic/go-txfile"
 
 	"verifharness/engine"
+	"verifharness/pqengine"
 	"verifharness/simdisk"
 )
 
@@ -57,6 +59,44 @@ func init() {
 		}
 		for _, f := range e.Failures {
 			fmt.Println("FAIL:", f)
+		}
+		return 0
+	})
+}
+
+func init() {
+	// pqlog <replay.json>: runs a queue history and prints the result of every operation and the file's end markers
+	register("pqlog", func(args []string) int {
+		rp, err := loadPQReplay(args[0])
+		if err != nil {
+			fmt.Fprintln(os.Stderr, err)
+			return 2
+		}
+		e, err := pqengine.New(rp.Config)
+		if err != nil {
+			fmt.Fprintln(os.Stderr, err)
+			return 2
+		}
+		for _, op := range rp.Ops {
+			if e.Queue == nil {
+				break
+			}
+			res := e.Apply(op)
+			line := fmt.Sprintf("%-14v => %-22q", op, res)
+			if e.File != nil {
+				s := txfile.VerifSnapshot(e.File)
+				sz, _ := e.Disk.Size()
+				line += fmt.Sprintf(" dataEnd=%d metaEnd=%d max=%d metaTotal=%d filePages=%d", s.DataEnd, s.MetaEnd, s.MaxPages, s.MetaTotal, sz/int64(rp.Config.PageSize))
+			}
+			fmt.Println(line)
+		}
+		for _, l := range e.Log {
+			if strings.HasPrefix(l, "appfill:") {
+				fmt.Println(l)
+			}
+		}
+		for _, f := range e.Failures {
+			fmt.Println("FAILURE:", f)
 		}
 		return 0
 	})
